@@ -932,6 +932,12 @@ standardize() {
     }
   }
 
+  if (result.empty()) {
+    // Everything cancelled out (e.g. "a/.."), which leaves the current
+    // directory.
+    result = ".";
+  }
+
   (*this) = result;
 }
 
